@@ -27,10 +27,7 @@ var c02Extras = []string{"/d/unrelated.txt", "/d/sub/x.bin", "/d/s.par2.bak", "/
 var c02Extras1 = []string{"/d/unrelated.txt", "/d/sub/x.bin", "/d/s.par.bak", "/d/s.p01.old", "/d/f0.orig", "/other/s.p01"}
 
 func c02Gen(g *core.Gen) {
-	D := 2
-	if g.Thorough() {
-		D = 3
-	}
+	D := 3 // all combinations of <=3 operators of the reduced menu in both tiers; thorough adds pairs and triples over the full menu
 	// PAR2: default sets; menu = reduced data menu + recovery-file operators (+ full data menu at D=1)
 	cfgs := []scen.P2Config{
 		{Sizes: []int{11, 6}, Slice: 4, Blocks: 3, Class: "uniq"},
@@ -58,6 +55,25 @@ func c02Gen(g *core.Gen) {
 		full := scen.DataMenu(cfg.Sizes, cfg.Slice, nrec, true)
 		for _, m := range full {
 			g.Emit(&c02Case{Kind: "p2", P2: &p2Case{Cfg: cfg, Dmg: []scen.Dmg{m}, G: 1, DoubleCheck: ci%2 == 0, Extra: c02Extras}})
+		}
+		if g.Thorough() {
+			fullRec := append(append([]scen.Dmg{}, full...), scen.RecMenu(nrec)...)
+			kmax := 2
+			if ci == 0 {
+				kmax = 3
+			}
+			for k := 2; k <= kmax; k++ {
+				forCombos(len(fullRec), k, func(ix []int) {
+					if g.Stopped() {
+						return
+					}
+					var ds []scen.Dmg
+					for _, i := range ix {
+						ds = append(ds, fullRec[i])
+					}
+					g.Emit(&c02Case{Kind: "p2", P2: &p2Case{Cfg: cfg, Dmg: ds, G: 1, DoubleCheck: (ix[0]+k)%2 == 0, Extra: c02Extras}})
+				})
+			}
 		}
 	}
 	// Repair that fails midway: the k-th write fails (no effect); everything written before must still be
@@ -229,7 +245,7 @@ func init() {
 	core.Register(&core.Prop{
 		ID:    "C02",
 		Level: "model_checking",
-		Rule: "bounded-exhaustive archive states: PAR2 default sets with ALL combinations of <=D (quick 2, thorough 3) operators from {data damage menu} U {recovery file replaced by a well-formed file with wrong blocks, payload flip, truncation, emptied, foreign-set recovery file, deleted}, double-check on and off, unrelated files / sub-directory / look-alike names beside the set; " +
+		Rule: "bounded-exhaustive archive states: PAR2 default sets with ALL combinations of <=3 operators (thorough: additionally all pairs, and for the default set all triples, over the FULL per-offset data menu plus the recovery-file operators) from {data damage menu} U {recovery file replaced by a well-formed file with wrong blocks, payload flip, truncation, emptied, foreign-set recovery file, deleted}, double-check on and off, unrelated files / sub-directory / look-alike names beside the set; " +
 			"PAR1 full product of per-file damage {ok,deleted,changed,truncated,emptied,garbage} x per-volume {ok,deleted,corrupt,foreign,truncated} x double-check; Create on a size grid. " +
 			"Oracle from the recorder: every write during Repair targets a protected path with exactly the protected bytes and is listed in the result; every other directory entry is byte-identical afterwards; Verify performs no write; Create writes only set files and changes nothing else. non-trivial = Repair wrote or failed",
 		Assumptions: []string{"all filesystem access of par1/par2 goes through the fileIO seam (asserted by a source lint in this check)", "a path listed in the result but not written is outside the statement (counted, not alarmed)"},
